@@ -292,6 +292,10 @@ func draw(t *rapid.T) Case {
 	near := s.near
 	if s.name == "compressor" && rapid.Bool().Draw(t, "anyNear") {
 		near = rapid.Int64Range(-3, 10).Draw(t, "near")
+		if rapid.IntRange(0, 5).Draw(t, "hugeNear") == 0 {
+			// thresholds beyond any file offset: everything is within reach of everything
+			near = rapid.SampledFrom([]int64{1 << 40, 1 << 47, 1 << 48, 1 << 50}).Draw(t, "huge")
+		}
 	}
 	return Case{Chunks: cs, Strategy: s.name, Near: near}
 }
